@@ -26,6 +26,9 @@ pub struct FaultCase {
 	/// hand-over pattern: at environment step n another thread takes leaf `position` (index into the target's leaves)
 	#[serde(default)]
 	pub env_script: Vec<Option<(usize, bool)>>,
+	/// every Poisonable under the target was poisoned beforehand (a panic under the target's guard)
+	#[serde(default)]
+	pub poisoned: bool,
 }
 
 pub struct FaultOut {
@@ -57,6 +60,11 @@ pub fn run_fault_case(c: &FaultCase, keep_trace: bool) -> FaultOut {
 	let o = seq::case(Policy::RP, keep_trace, |w, ctl| {
 		let t = w.build(&c.spec).expect("catalogue spec");
 		ctl.init(w);
+		if c.poisoned {
+			let key = ThreadKey::get().expect("clean");
+			let (key, _) = interp::acquire(&t, true, Flavour::Guard, Body::PANIC, key, 99);
+			drop(key);
+		}
 		apply_assignment(ctl, &t.leaves, &c.assign);
 		ctl.exec.lock().env_script = c.env_script.iter().map(|e| e.map(|(pos, excl)| (t.leaves[pos], if excl { Mode::Excl } else { Mode::Shared }))).collect();
 		let foreign_before: Vec<(u32, (Option<usize>, Vec<usize>))> = t.leaves.iter().map(|l| (*l, ctl.holder(*l))).collect();
@@ -153,6 +161,44 @@ pub fn run_fault_case(c: &FaultCase, keep_trace: bool) -> FaultOut {
 					None => {}
 				}
 			}
+
+			// the whole target again, now that one of its locks is dead: a try must fail and a blocking
+			// acquisition must refuse by panicking, and neither may keep any of the healthy members
+			let some_killed = t.leaves.iter().any(|l| fired.iter().any(|(_, o)| o.lock == *l)) && t.leaves.iter().all(|l| leaf_lock(w, *l).is_some());
+			if some_killed && ctl.exec.lock().locks.iter().all(|l| l.is_free()) {
+				for fl in [Flavour::Try, Flavour::ScopedTryLent, Flavour::Guard, Flavour::ScopedLent] {
+					let Some(key) = ThreadKey::get() else { break };
+					let r = catch_unwind(AssertUnwindSafe(|| interp::acquire(&t, c.write, fl, Body::NONE, key, 2)));
+					rt::end_call();
+					let wk = interp::what(&t, fl.api(c.write));
+					match r {
+						Ok((k, ok)) => {
+							drop(k);
+							if ok {
+								rt::violation("C12", format!("target-with-dead-lock-acquired|{}|fault-on-{}", rt::what_key(&wk), opk), format!("after raw {} panicked during `{}`, `{}` acquired the target although one of its locks is dead", fop.short(), w_, wk));
+							}
+						}
+						Err(p) => {
+							if !fl.is_try() && rt::classify_panic(&p).contains("has been killed") {
+								// refused by panicking: fine
+							} else {
+								rt::violation("C12", format!("target-with-dead-lock-panic|{}|fault-on-{}", rt::what_key(&wk), opk), format!("`{}` on a target with a dead lock ended with {}", wk, rt::classify_panic(&p)));
+							}
+						}
+					}
+					let held = ctl.exec.lock().held(0);
+					if !held.is_empty() {
+						rt::violation("C12", format!("dead-lock-refusal-keeps-holds|{}|fault-on-{}", rt::what_key(&wk), opk), format!("`{}` refused a target containing a dead lock but keeps {:?}", wk, held));
+						let mut g = ctl.exec.lock();
+						for l in g.locks.iter_mut() {
+							if l.excl == Some(0) {
+								l.excl = None;
+							}
+							l.shared.retain(|t| *t != 0);
+						}
+					}
+				}
+			}
 		}
 		n
 	});
@@ -244,7 +290,10 @@ pub fn check_c12(tier: &str) -> ! {
 					if !write && !info.sharable {
 						continue;
 					}
-					base.push(FaultCase { spec: s.clone(), assign: a.clone(), flavour: f, write, fault: None, env_script: vec![] });
+					base.push(FaultCase { spec: s.clone(), assign: a.clone(), flavour: f, write, fault: None, env_script: vec![], poisoned: false });
+					if crate::seqchecks::has_poisonable(s) {
+						base.push(FaultCase { spec: s.clone(), assign: a.clone(), flavour: f, write, fault: None, env_script: vec![], poisoned: true });
+					}
 					// hand-over patterns for blocking calls that will have to wait: while the subject is blocked,
 					// another thread takes one more leaf (at the first or at the second wait)
 					if !f.is_try() && a.iter().any(|v| *v != 0) && info.leaves.len() >= 2 && info.leaves.len() <= 3 {
@@ -256,7 +305,7 @@ pub fn check_c12(tier: &str) -> ! {
 									}
 									let mut script = vec![None; step];
 									script.push(Some((pos, excl)));
-									base.push(FaultCase { spec: s.clone(), assign: a.clone(), flavour: f, write, fault: None, env_script: script });
+									base.push(FaultCase { spec: s.clone(), assign: a.clone(), flavour: f, write, fault: None, env_script: script, poisoned: false });
 								}
 							}
 						}
@@ -291,7 +340,7 @@ pub fn check_c12(tier: &str) -> ! {
 						if !write && !info.sharable {
 							continue;
 						}
-						cases.push(FaultCase { spec: s.clone(), assign: vec![0; info.leaves.len()], flavour: f, write, fault: Some(FaultSpec::Persistent { lock: *l, on_lock, on_try, on_unlock }), env_script: vec![] });
+						cases.push(FaultCase { spec: s.clone(), assign: vec![0; info.leaves.len()], flavour: f, write, fault: Some(FaultSpec::Persistent { lock: *l, on_lock, on_try, on_unlock }), env_script: vec![], poisoned: false });
 					}
 				}
 			}
@@ -303,7 +352,7 @@ pub fn check_c12(tier: &str) -> ! {
 		rep.add("evaluations", 1);
 		if !o.fired.is_empty() {
 			rep.add("runs_in_which_the_fault_fired", 1);
-			distinct.insert((c.spec.clone(), c.assign.clone(), c.flavour, c.write, c.env_script.clone(), o.fired[0].1.lock, o.fired[0].1.act as u8, o.fired[0].0));
+			distinct.insert((c.spec.clone(), c.assign.clone(), c.flavour, c.write, c.poisoned, c.env_script.clone(), o.fired[0].1.lock, o.fired[0].1.act as u8, o.fired[0].0));
 		}
 		for v in &o.violations {
 			rep.violation(Viol { prop: v.prop.to_string(), key: v.key.clone(), detail: v.detail.clone(), replay: json!({"kind": "seq-fault", "case": c}) });
